@@ -261,6 +261,8 @@ func TestE2Run(t *testing.T) {
 			return
 		}
 		defer done()
+		c.Plan.SleepMs = rapid.SampledFrom([]int{0, 5, 15}).Draw(t, "jobMs")
+		c.Plan.Write(c.Dir)
 		p, err := c.Start("--localcores=4", "--localmem=8")
 		if err != nil {
 			t.Fatalf("INFRA: %v", err)
@@ -280,9 +282,60 @@ func TestE2Run(t *testing.T) {
 		if c.Locked() {
 			fail(t, "C05", "lock-left-after-success", "%s", c.describe())
 		}
-		stats.Case("C01", len(c.model.Jobs) >= 2, stats.Digest(c.src), []string{"e2-run"}, func() any {
-			return map[string]any{"program": stats.Trunc(c.src, 800), "jobs": len(c.model.Jobs)}
-		})
+		// --- C02 on real time: a job's process starts only after the final
+		// job of every call instance it depends on has ended
+		ix := indexModel(c.model)
+		ix.trueDeps = refsem.TrueDeps(prog, &c.Plan.Opts, c.model)
+		recKey := func(r *mrprun.Record) (string, string) {
+			ph := r.Identity[strings.LastIndexByte(r.Identity, ':')+1:]
+			if strings.HasPrefix(ph, "chunk") {
+				ph = "chunk"
+				if st := prog.Stage(r.Stage); st != nil && !st.Split {
+					ph = "main"
+				}
+			}
+			v, _ := jsonx.Parse(r.Args)
+			o, _ := v.(*jsonx.Obj)
+			return identCall(r.Identity) + "|" + ph, canonArgs(o)
+		}
+		ordered := 0
+		recs := c.Ledger()
+		for _, r := range recs {
+			k, a := recKey(r)
+			for _, m := range ix.byKey[k] {
+				if canonArgs(m.Args) != a {
+					continue
+				}
+				for _, d := range ix.trueDeps[m.Key()] {
+					fj := ix.final[d]
+					if fj == nil {
+						continue
+					}
+					wa := canonArgs(fj.Args)
+					var end int64 = -1
+					for _, o := range recs {
+						ok, oa := recKey(o)
+						if ok == fj.CallPath+"|"+fj.Phase && oa == wa && (end < 0 || o.End < end) {
+							end = o.End
+						}
+					}
+					ordered++
+					if end < 0 || end > r.Start {
+						fail(t, "C02", "e2-started-before-dependency-ended", "job %s started at %d ns, the final job of %s it depends on ended at %d ns (-1: never ran)\n%s", r.Identity, r.Start, d, end, c.describe())
+					}
+				}
+				break
+			}
+		}
+		if ordered > 0 {
+			stats.Count("C01", "e2_dependency_orderings_checked", int64(ordered))
+		}
+		sample := func() any {
+			return map[string]any{"program": stats.Trunc(c.src, 800), "jobs": len(c.model.Jobs), "orderings_checked": ordered}
+		}
+		stats.Case("C01", len(c.model.Jobs) >= 2, stats.Digest(c.src), []string{"e2-run"}, sample)
+		stats.Case("C02", ordered > 0, stats.Digest(c.src), []string{"e2-run"}, sample)
+		stats.Case("C03", len(c.model.Jobs) >= 2, stats.Digest(c.src), []string{"e2-run"}, sample)
 	})
 }
 
